@@ -98,7 +98,7 @@ def dict_case(draw):
 def arith_case(draw):
     a = draw(items(1))
     b = draw(items(1))
-    return {"kind": "arith", "a": [[i, j] for i, j in a], "b": [[i, j] for i, j in b], "k": draw(st.integers(1, 7)),
+    return {"kind": "arith", "a": [[i, j] for i, j in a], "b": [[i, j] for i, j in b], "k": draw(st.sampled_from([1, 1, 2, 3, 5, 7])),
             "natural": draw(st.booleans())}
 
 
@@ -339,6 +339,22 @@ def check(case):
         if compare(v, f"Substance({ta!r}) + Substance({tb!r})", r, ca + cb, nat) is None and not v.violations:
             ck = collections.Counter({key: n * k for key, n in ca.items()})
             compare(v, f"Substance({ta!r}) * {k}", r2, ck, nat)
+        if not v.violations and first:
+            # a product / sum is a new substance: extending it in place leaves the operand as it was, and vice versa
+            try:
+                s0 = Substance(ta, natural=nat)
+                pr = s0 * k
+                pr.add(sp_text(sp0), 2)
+                compare(v, f"s = Substance({ta!r}); p = s * {k}; p.add({sp_text(sp0)!r}, 2); s", s0, ca, nat)
+                if not v.violations:
+                    s1 = Substance(ta, natural=nat)
+                    sm = s1 + Substance(tb, natural=nat)
+                    s1.add(sp_text(sp0), 3)
+                    compare(v, f"s = Substance({ta!r}); r = s + Substance({tb!r}); s.add({sp_text(sp0)!r}, 3); r", sm, ca + cb, nat)
+            except Exception as e:
+                v.fail("formula-rejected", f"in-place add() after * / + on Substance({ta!r}) raised {e!r}")
+                return v
+            v.label("result_then_add")
         v.nt(True)
         v.label("arith")
     return v
